@@ -334,15 +334,19 @@ class OptionsDictionary(object):
         None
             Yields None after entering a temporary context.
         """
-        for option, val in kwargs.items():
-            if option not in self._context_cache:
-                self._context_cache[option] = []
-            self._context_cache[option].append(self[option])
-            self[option] = val
+        switched = []
         try:
+            for option, val in kwargs.items():
+                old = self[option]
+                if option not in self._context_cache:
+                    self._context_cache[option] = []
+                self._context_cache[option].append(old)
+                switched.append(option)
+                self[option] = val
             yield
         finally:
-            for option in kwargs:
+            # restore (in reverse order) every option switched so far, also if entering failed
+            for option in reversed(switched):
                 self[option] = self._context_cache[option].pop()
                 if len(self._context_cache[option]) == 0:
                     self._context_cache.pop(option)
